@@ -5,6 +5,7 @@ void use()
 {
     raw_mutex_user a;
     a.f();
+    a.probe();
     blocking_reader b;
     (void)b.read();
     (void)b.spin();
@@ -13,6 +14,13 @@ void use()
     (void)c.dangling();
     nullable_deref d;
     nullable_deref e(std::move(d));
+    unchecked_find u;
+    (void)u.get("x");
+    (void)u.get_checked("x");
+    move_in_loop ml;
+    std::vector<std::string> sink;
+    ml.broadcast(std::string("v"));
+    ml.drain(sink);
     bad_cv f;
     f.set();
     f.wait();
